@@ -490,7 +490,14 @@ pub fn spec_for(packet: &str, rng: &mut Rng, cfg: &Cfg) -> Spec {
             ]
         }
         "StoreCookie" => vec![("key", identifiers(rng, cfg)), ("payload", byte_arrays(rng, &[64, 0, 1, 32, 127, 128, cfg.cap(5120)]))],
-        "Transfer" => vec![("host", general_strings(rng, cfg, 32767, "lobby.example.org")), ("port", ports(rng, cfg))],
+        "Transfer" => {
+            // what the router puts there is `ip().to_string()` of the target: IPv4 and IPv6 literals
+            let mut hosts = general_strings(rng, cfg, 32767, "lobby.example.org");
+            for h in ["10.0.0.7", "::1", "2001:db8::7", "::ffff:192.0.2.7", "fe80::1%eth0", "[::1]", "a:b", ":", "host:25565"] {
+                hosts.push(Value::String(h.to_string()));
+            }
+            vec![("host", hosts), ("port", ports(rng, cfg))]
+        }
         "ClientInformation" => vec![
             ("locale", general_strings(rng, cfg, 16, "en_US")),
             ("view_distance", i8s()),
